@@ -30,13 +30,35 @@ func c19Tags(f []string) []string {
 			maxDeclared = max(maxDeclared, num(3), num(5))
 		case "B":
 			maxDeclared = max(maxDeclared, num(4), num(5))
-		case "P", "I":
+		case "P", "I", "Pf", "Ps":
 			maxDeclared = max(maxDeclared, num(3))
 		}
 	}
 	var tags []string
 	mode := "mode-cache"
-	if has["P"] || has["D"] || has["Q"] || has["T"] || has["I"] {
+	faulted, storeFault := false, false
+	for _, o := range ops {
+		g := strings.Split(o, ",")
+		switch g[0] {
+		case "Tr", "Te", "Tc", "Pf", "Df", "Ps":
+			faulted = true
+		case "Ts":
+			faulted, storeFault = true, true
+		case "Q":
+			if len(g) > 3 && g[3] != "n" {
+				faulted = true
+				storeFault = storeFault || g[3][0] == 's'
+			}
+		}
+	}
+	partOps := false
+	for k := range has {
+		switch k {
+		case "P", "D", "Q", "T", "I", "Tr", "Ts", "Te", "Tc", "Pf", "Df", "Ps":
+			partOps = true
+		}
+	}
+	if partOps {
 		mode = "mode-partstore"
 	}
 	interleaved := has["B"] || has["O"] || has["Q"]
@@ -58,8 +80,14 @@ func c19Tags(f []string) []string {
 	if f[0] == "f" && interleaved {
 		tags = append(tags, "kf:C19-fs-inplace-partial")
 	}
-	if has["Q"] && (has["D"] || has["P"]) {
+	if has["Q"] && (has["D"] || has["P"] || has["Ps"]) {
 		tags = append(tags, "kf:C19-stale-fill-after-delete")
+	}
+	if faulted {
+		tags = append(tags, "faulted")
+	}
+	if storeFault {
+		tags = append(tags, "kf:C19-fill-store-error-hangs-reader")
 	}
 	return tags
 }
@@ -97,6 +125,21 @@ func c19GenCase(r *Rng) string {
 		keys = []string{"a", "b", "c", "d", "e"}
 	}
 	vid := 0
+	lastLen := map[string]int{}
+	failPoint := func(k string) int { // 0, mid, all-but-one, (rarely) at/after the end
+		l := lastLen[k]
+		switch r.Intn(6) {
+		case 0:
+			return 0
+		case 1:
+			if l > 0 {
+				return l - 1
+			}
+		case 2:
+			return l + r.Intn(2)
+		}
+		return r.Intn(l + 1)
+	}
 	length := func() int {
 		top := limit
 		if top > 40 {
@@ -181,18 +224,52 @@ func c19GenCase(r *Rng) string {
 					l = maxpart + r.Intn(3)
 				}
 				letter := "P"
-				if r.Chance(35) {
+				switch w2 := r.Intn(100); {
+				case w2 < 30:
 					letter = "I"
+				case w2 < 38:
+					letter = "Pf"
 				}
-				ops = append(ops, fmt.Sprintf("%s,%s,%d,%d", letter, k, vid, l))
+				if letter == "P" && r.Chance(10) {
+					ops = append(ops, fmt.Sprintf("Ps,%s,%d,%d,%d", k, vid, l, []int{0, 1, l, l + 1}[r.Intn(4)]))
+				} else {
+					ops = append(ops, fmt.Sprintf("%s,%s,%d,%d", letter, k, vid, l))
+				}
+				if letter != "Pf" {
+					lastLen[k] = l
+				}
 			case w < 50 || !interleaved && w < 85:
-				ops = append(ops, "T,"+k)
+				switch w2 := r.Intn(100); {
+				case w2 < 14:
+					ops = append(ops, fmt.Sprintf("Tr,%s,%d", k, failPoint(k)))
+				case w2 < 19:
+					ops = append(ops, "Te,"+k)
+				case w2 < 26:
+					ops = append(ops, fmt.Sprintf("Tc,%s,%d", k, 1+r.Intn(lastLen[k]+2)))
+				case w2 < 28:
+					ops = append(ops, fmt.Sprintf("Ts,%s,%d", k, failPoint(k)))
+				default:
+					ops = append(ops, "T,"+k)
+				}
 			case w < 60 || !interleaved:
-				ops = append(ops, "D,"+k)
+				if r.Chance(15) {
+					ops = append(ops, "Df,"+k)
+				} else {
+					ops = append(ops, "D,"+k)
+				}
 			case w < 74:
 				h := pickFree(openH)
 				openH[h] = true
-				ops = append(ops, fmt.Sprintf("Q,%d,%s", h, k))
+				switch w2 := r.Intn(100); {
+				case w2 < 22:
+					ops = append(ops, fmt.Sprintf("Q,%d,%s,r%d", h, k, failPoint(k)))
+				case w2 < 27:
+					ops = append(ops, fmt.Sprintf("Q,%d,%s,e", h, k))
+				case w2 < 31:
+					ops = append(ops, fmt.Sprintf("Q,%d,%s,s%d", h, k, failPoint(k)))
+				default:
+					ops = append(ops, fmt.Sprintf("Q,%d,%s", h, k))
+				}
 				lastKey = k
 			case w < 88:
 				ops = append(ops, fmt.Sprintf("R,%d,%d", pickOpen(openH), 1+r.Intn(12)))
@@ -211,6 +288,10 @@ func c19GenCase(r *Rng) string {
 		case w < 30 || !interleaved && w < 45:
 			vid++
 			l := length()
+			if prev, ok := lastLen[k]; ok && prev > 1 && r.Chance(35) { // overwrite with a strictly shorter value
+				l = r.Intn(prev)
+			}
+			lastLen[k] = l
 			ops = append(ops, fmt.Sprintf("S,%s,%d,%d,%s", k, vid, l, hint(l)))
 		case w < 52 || !interleaved && w < 85:
 			ops = append(ops, "G,"+k)
